@@ -32,7 +32,7 @@ CLAIMED = {
         "Coq proof (invariant + refinement to a mathematical set, induction over histories) + history correspondence evaluated in Coq",
         "DESIGN.md 4/C01"),
     "C18": (
-        "6 Coq theorems (coq/Properties/C18.v): for every strictly sorted timeline and every t, overlapping(t) is the "
+        "9 Coq theorems (coq/Properties/C18.v): for every strictly sorted timeline and every t, overlapping(t) is the "
         "order-preserving filter by start <= t <= end (also stated for every reachable Timeline object of C01); the "
         "pre-repair query is characterised exactly (it lost precisely the members starting at t) and refuted by a "
         "vm_compute witness (finding F9, fixed in /repo). Tied to /repo on all small timelines x every tick.",
@@ -53,13 +53,13 @@ CLAIMED = {
         "Coq proof (custom induction principle over the sweep, canonical-form uniqueness) + exhaustive small-scope correspondence",
         "DESIGN.md 4/C04"),
     "C05": (
-        "13 Coq theorems (coq/Properties/C05.v): co_iter equals the plain nested comprehension over intersecting "
+        "15 Coq theorems (coq/Properties/C05.v): co_iter equals the plain nested comprehension over intersecting "
         "pairs (the SortedList range query loses nothing), each pair once, chronological; crop in loose / strict / "
         "intersection mode characterised by membership against the regions of support(S); the returns_mapping dict "
         "lists exactly the originals that produced each piece; Timeline support == its support(), Segment support == "
         "one-segment timeline, empty support gives empty result; all for every eps >= 0.",
         "Trusted: Coq kernel + vm_compute; model of co_iter/crop_iter/crop in coq/Model/Timeline.v; harness. "
-        "Annotation.co_iter is tied and stated in the annotation model (see C07/C09 files) once built.",
+        "Annotation.co_iter is proved exact and duplicate-free in the annotation model as well.",
         "Coq proof (list induction, filter algebra) + exhaustive small-scope correspondence",
         "DESIGN.md 4/C05"),
     "C06": (
@@ -73,7 +73,7 @@ CLAIMED = {
         "Coq proof (canonical decompositions, cell-wise reasoning) + exhaustive small-scope correspondence",
         "DESIGN.md 4/C06"),
     "C10": (
-        "6 Coq theorems (coq/Properties/C10.v), exact at eps = 0: segmentation() covers exactly the covered cells, its "
+        "7 Coq theorems (coq/Properties/C10.v), exact at eps = 0: segmentation() covers exactly the covered cells, its "
         "pieces are pairwise non-overlapping, bounded by original bounds with no original bound strictly inside, and "
         "every original segment is the union of the pieces it contains; Timeline.get_overlap() is the canonical "
         "decomposition of the cells covered by two distinct segments.",
@@ -100,12 +100,15 @@ CLAIMED.update({
         "Coq proof (invariant by induction over histories + refinement of reads to from-scratch functions) + history correspondence",
         "DESIGN.md 4/C02"),
     "C07": (
-        "Theorems in coq/Properties/C07.v (see file header for what is proved and what is tied only); the correspondence "
+        "11 Coq theorems (coq/Properties/C07.v): loose/strict = restriction of the track map, uri/modality carried, extrude = "
+        "crop on the complement with modes swapped, intersection mode = exactly one (s & r, label) track per original track "
+        "and intersecting support region (multiset equality by Permutation, invariant preserved, names never overwritten), "
+        "and per label crop time + extrude time = original time (exact on unit cells at eps = 0). The correspondence "
         "compares crop / extrude in the three modes exactly for loose/strict and, for intersection mode, by the "
         "order-independent specification: same (piece, label) multiset, distinct track names per piece, every requested "
         "original name in use.",
         "Trusted: Coq kernel + vm_compute; model coq/Model/AnnotationOps.v (crop, new_track, extrude as coded); harness.",
-        "Coq proof (partial, see Properties/C07.v) + correspondence with a boolean specification evaluated in Coq",
+        "Coq proof (fold invariants, Permutation of track contents, pigeonhole, unit-cell measure) + correspondence with a boolean specification evaluated in Coq",
         "DESIGN.md 4/C07"),
     "C08": (
         "4 Coq theorems (coq/Properties/C08.v) for the purity half on the value model: every read query refreshes caches "
@@ -118,18 +121,23 @@ CLAIMED.update({
         "Coq proof (purity on the value model) + derive-then-mutate exploration for aliasing",
         "DESIGN.md 4/C08"),
     "C09": (
-        "Theorems in coq/Properties/C09.v (see file header); the correspondence compares support(collar) as (segment, label) "
+        "9 Coq theorems (coq/Properties/C09.v): support(collar) holds exactly one track per label in use and segment of that "
+        "label's timeline support(collar) (Permutation; track names distinct by injectivity of the bijective base-26 words), "
+        "label_duration = measure of the union, chart sorted / complete / duplicate-free, argmax maximal with and without "
+        "support, matrix entries and transpose. The correspondence compares support(collar) as (segment, label) "
         "sets with distinct track names, label durations and the co-occurrence matrix exactly, chart and argmax through "
         "their boolean specifications (ties free).",
         "Trusted: Coq kernel + vm_compute; model coq/Model/AnnotationOps.v; harness (percent=True fractions are checked in "
         "the driver in floating point).",
-        "Coq proof (partial, see Properties/C09.v) + correspondence evaluated in Coq",
+        "Coq proof (invariants, Permutation, permutation-invariant sums) + correspondence evaluated in Coq",
         "DESIGN.md 4/C09"),
     "C11": (
-        "9 Coq theorems (coq/Properties/C11.v): rename_labels gives every track mapping.get(label, label) exactly once "
+        "13 Coq theorems (coq/Properties/C11.v): rename_labels gives every track mapping.get(label, label) exactly once "
         "(swap and chain corollaries), keeps segments, track names, uri, modality, in place or on a copy, and keeps the "
         "C02 invariant; subset(L) / subset(L, invert=True) keep exactly the tracks whose label is / is not in L and "
-        "partition the annotation. rename_tracks, relabel_tracks and generated mappings are tied exactly, not proved.",
+        "partition the annotation; rename_tracks keeps every (segment, label) with the k-th track named by the k-th generated "
+        "value, relabel_tracks keeps every (segment, track) with the k-th label, generated mappings follow labels() order, "
+        "generated values pairwise distinct (string and int generators; user iterables tied only).",
         "Trusted: Coq kernel + vm_compute; model; harness.",
         "Coq proof + correspondence evaluated in Coq",
         "DESIGN.md 4/C11"),
@@ -157,10 +165,10 @@ CLAIMED.update({
         "Coq proof (Z division lemmas, lia/nia) + exhaustive small-geometry correspondence",
         "DESIGN.md 4/C14"),
     "C15": (
-        "8 Coq theorems (coq/Properties/C15.v): loose = frames touching the focus, strict = frames inside it, strict "
+        "10 Coq theorems (coq/Properties/C15.v): loose = frames touching the focus, strict = frames inside it, strict "
         "subset of loose, center by definition of closest_frame, fixed count = samples, index array = range, Timeline "
-        "focus = increasing duplicate-free union over support segments, empty focus empty. return_ranges describing the "
-        "same set after merging is checked at run time on every case, not proved.",
+        "focus = increasing duplicate-free union over support segments, empty focus empty; return_ranges = separated half-open "
+        "runs describing exactly the same index set (merge rule proved set-preserving from monotonicity of the per-segment ranges).",
         "Trusted: Coq kernel + vm_compute; model coq/Model/Window.v; harness.",
         "Coq proof + exhaustive small-geometry correspondence",
         "DESIGN.md 4/C15"),
@@ -172,28 +180,32 @@ CLAIMED.update({
         "Coq proof + correspondence evaluated in Coq",
         "DESIGN.md 4/C16"),
     "C17": (
-        "Theorems in coq/Properties/C17.v (see file header); the correspondence checks discretize and one_hot_encoding "
+        "15 Coq theorems (coq/Properties/C17.v): the centre rule for ranges, the assembled discretize matrix (window, frame count, "
+        "label order, entry = 1 iff the frame is in a centre-mode range of the label's support, clipping never wraps), the "
+        "one_hot_encoding matrix (-1 outside the support, saturation, refusal of a missing label), decode error bounds and the "
+        "refutation of the one-step claim (F7). The correspondence checks discretize and one_hot_encoding "
         "against the model exactly and against the centre rule as a boolean specification, and one_hot_decoding against "
         "the model; known finding F7 (decoded offsets up to 1.5 step late) is recognised by a dedicated verdict code; "
         "finding F11 (negative slice bound) fixed.",
         "Trusted: Coq kernel + vm_compute; model coq/Model/Discretize.v; harness.",
-        "Coq proof (partial, see Properties/C17.v) + correspondence with boolean specification evaluated in Coq",
+        "Coq proof (rounding lemmas by nia, range-merge invariants) + correspondence with boolean specification evaluated in Coq",
         "DESIGN.md 4/C17"),
     "C19": (
-        "11 Coq theorems (coq/Properties/C19.v): int_generator, pairwise, string_generator as the filtered stream of "
+        "13 Coq theorems (coq/Properties/C19.v): int_generator, pairwise, string_generator as the filtered stream of "
         "words (skip honoured, order kept), new_track returns the candidate when free else a fresh name = prefix + least "
-        "free integer (pigeonhole proved), random_subsegment inside its source for every draw u in [0,1). The closed form "
-        "of the words, to_annotation and random_segment are tied only.",
+        "free integer (pigeonhole proved), random_subsegment inside its source for every draw u in [0,1); the words are the bijective "
+        "base-26 numerals (value i + 1, capitals only) hence never collide. to_annotation and random_segment are tied only.",
         "Trusted: Coq kernel + vm_compute; models coq/Model/Generators.v, AnnotationOps.v; harness (np.random.random is "
         "replaced by a stub returning k/1024 so that model and implementation see the same draw).",
         "Coq proof + correspondence evaluated in Coq",
         "DESIGN.md 4/C19"),
     "C20": (
-        "17 Coq theorems (coq/Properties/C20.v): to_condensed symmetric, rejects the diagonal, numbers pairs in row-major "
+        "20 Coq theorems (coq/Properties/C20.v): to_condensed symmetric, rejects the diagonal, numbers pairs in row-major "
         "order 0..n(n-1)/2-1 strictly increasingly; to_squared inverse both ways (exact integer square root); pdist layout "
-        "at to_condensed positions, cdist entries, metric definitions; propagate_constraints result contains the given "
-        "pairs and is closed under the propagation rule (partial: minimality, the exact ValueError condition and "
-        "termination are decided by the exhaustive correspondence on small graphs). l2_normalize is checked numerically.",
+        "at to_condensed positions, cdist entries, metric definitions; propagate_constraints returns exactly the pairs "
+        "implied by closing the cannot-link pairs under the must-link equivalence (sound and complete), raises exactly when a "
+        "must-link group contains a cannot-link pair, and never exhausts the model's fuel (non-degenerate input pairs; "
+        "degenerate ones tied only). l2_normalize is checked numerically.",
         "Trusted: Coq kernel + vm_compute; model coq/Model/Condensed.v (exact arithmetic; the float sqrt of to_squared is "
         "tied up to n = 10^7 at row starts/ends); harness running under python3-vt with the repository files loaded "
         "through a synthetic package.",
